@@ -59,6 +59,10 @@ func loadHIDIConfig(path string) (HIDIConfig, error) {
 		return HIDIConfig{}, err
 	}
 
+	if rawConfig.HIDI.PoolRate <= 0 || rawConfig.HIDI.DiscoveryRate <= 0 {
+		return HIDIConfig{}, fmt.Errorf("pool_rate and discovery_rate have to be set to positive values in \"%s\"", path)
+	}
+
 	var config HIDIConfig
 
 	config.HIDI.EVThrottling = time.Second / time.Duration(rawConfig.HIDI.PoolRate)
